@@ -35,7 +35,7 @@ def merge_value(prev_value: list=None, next_value: list=None, glue: str=''):
     if prev_value is not None and next_value is not None:
         # Do not modify the list in place: it may be shared with other nodes
         prev_value = prev_value[:]
-        if prev_value and glue:
+        if prev_value and next_value and glue:
             append(prev_value, glue)
 
         for t in next_value:
